@@ -790,6 +790,11 @@ theorem d_update {id : Id} {f : Nat} (ih : DAll id f) (P : Id → Prop) (r : Roo
           have o4 := ih.dchildren P r3 cur r4 i3 p3.k p3.d h4
           have i4 := o4.i
           have g4 := o4.g
+          -- repair D22: a cleanup disposed the node itself, the update stops here
+          split at hx
+          · simp only [Except.ok.injEq] at hx
+            subst hx
+            exact p2.trans (p3.trans o4.toDPost)
           split at hx
           · cases hx
           · rename_i r5 new obs h5
@@ -1631,6 +1636,10 @@ theorem t_update {f : Nat} (ih : TAll f) (r : Root) (cur : Id) (r' : Root)
           · rename_i r4 h4
             have t4 : TExt r2 r4 :=
               (TExt.of_eq (SameFrame.setNode ..).2.2.2.2.2.2.2).trans (ih.dchildren _ cur r4 h4)
+            -- repair D22: a cleanup disposed the node itself, the update stops here
+            split at hx
+            · simp only [Except.ok.injEq] at hx
+              subst hx; exact t2.trans t4
             split at hx
             · cases hx
             · rename_i r5 new obs h5
@@ -2445,6 +2454,10 @@ theorem g_update {t f : Nat} (ih : GAll t f) (r : Root) (cur : Id) (r' : Root)
             have p3 : GPost t r2 (r2.setNode cur { n2 with callback := none, value := none }) :=
               (CStep.setNode { n2 with callback := none, value := none } hn2 (.inl rfl)).gpost
             have p4 := ih.dchildren _ cur r4 h4
+            -- repair D22: a cleanup disposed the node itself, the update stops here
+            split at hx
+            · simp only [Except.ok.injEq] at hx
+              subst hx; exact (p2.trans p3).trans p4
             split at hx
             · cases hx
             · rename_i r5 new obs h5
